@@ -116,8 +116,10 @@ pub fn method_of(req: &[u8]) -> String {
 
 pub fn body_rule_for(req: &[u8]) -> BodyRule {
     let m = method_of(req).to_ascii_uppercase();
-    if m == "HEAD" || m == "OPTIONS" {
+    if m == "HEAD" {
         BodyRule::Bodiless
+    } else if m == "OPTIONS" {
+        BodyRule::BodilessZero
     } else {
         BodyRule::Normal
     }
